@@ -172,33 +172,42 @@ Loop ==
                    lastE, peakN, evHist, seen, schedHist, sigma, ghost, hist>>
 
 \* for e in current_events: event_history.append(e); _process_event(e)
+\* ProcE(e, rest): process event e, leaving `rest` still to be processed in this period.
+\* (Proc takes the head of the batch; the trace specification may take any event of the
+\* batch whose (timestamp, precedence) key is minimal - the code leaves that order free.)
+ProcE(e, rest) ==
+    /\ batch' = rest /\ pc' = "Proc"
+    /\ evHist' = Append(evHist, [kind |-> e.kind, ts |-> e.ts, id |-> e.id, at |-> t])
+    /\ resolve' = TRUE
+    /\ CASE e.kind = "Plugin" ->
+              /\ occ[sess[e.id].st] = 0           \* else StationOccupiedError
+              /\ occ' = [occ EXCEPT ![sess[e.id].st] = e.id]
+              /\ seen' = seen \cup {e.id}
+              /\ queue' = queue \cup {[kind |-> "Unplug", ts |-> sess[e.id].dep, id |-> e.id]}
+              /\ lastUpd' = e.ts
+              /\ UNCHANGED evsePilot
+         [] e.kind = "Unplug" ->
+              /\ IF occ[sess[e.id].st] = e.id
+                 THEN /\ occ' = [occ EXCEPT ![sess[e.id].st] = 0]
+                      /\ evsePilot' = [evsePilot EXCEPT ![sess[e.id].st] = 0]
+                 ELSE UNCHANGED <<occ, evsePilot>>
+              /\ lastUpd' = e.ts
+              /\ UNCHANGED <<seen, queue>>
+         [] e.kind = "Recompute" ->
+              UNCHANGED <<occ, evsePilot, seen, queue, lastUpd>>
+
+ProcRest == <<sess, recomp, MR, t, pilots, dE, evE, chg, lastE, peakN, schedHist, sigma, ghost, hist>>
+
+ProcEnd ==      \* the period's events are done: go on to the recompute test
+    /\ pc = "Proc" /\ batch = <<>> /\ pc' = "Decide"
+    /\ UNCHANGED <<batch, queue, occ, evsePilot, seen, resolve, lastUpd, evHist>>
+    /\ UNCHANGED ProcRest
+
 Proc ==
-    /\ pc = "Proc"
-    /\ IF batch = <<>>
-       THEN /\ pc' = "Decide"
-            /\ UNCHANGED <<batch, queue, occ, evsePilot, seen, resolve, lastUpd, evHist>>
-       ELSE LET e == Head(batch) IN
-            /\ batch' = Tail(batch) /\ pc' = "Proc"
-            /\ evHist' = Append(evHist, [kind |-> e.kind, ts |-> e.ts, id |-> e.id, at |-> t])
-            /\ resolve' = TRUE
-            /\ CASE e.kind = "Plugin" ->
-                      /\ occ[sess[e.id].st] = 0           \* else StationOccupiedError
-                      /\ occ' = [occ EXCEPT ![sess[e.id].st] = e.id]
-                      /\ seen' = seen \cup {e.id}
-                      /\ queue' = queue \cup {[kind |-> "Unplug", ts |-> sess[e.id].dep, id |-> e.id]}
-                      /\ lastUpd' = e.ts
-                      /\ UNCHANGED evsePilot
-                 [] e.kind = "Unplug" ->
-                      /\ IF occ[sess[e.id].st] = e.id
-                         THEN /\ occ' = [occ EXCEPT ![sess[e.id].st] = 0]
-                              /\ evsePilot' = [evsePilot EXCEPT ![sess[e.id].st] = 0]
-                         ELSE UNCHANGED <<occ, evsePilot>>
-                      /\ lastUpd' = e.ts
-                      /\ UNCHANGED <<seen, queue>>
-                 [] e.kind = "Recompute" ->
-                      UNCHANGED <<occ, evsePilot, seen, queue, lastUpd>>
-    /\ UNCHANGED <<sess, recomp, MR, t, pilots, dE, evE, chg, lastE, peakN, schedHist, sigma,
-                   ghost, hist>>
+    \/ ProcEnd
+    \/ /\ pc = "Proc" /\ batch # <<>>
+       /\ ProcE(Head(batch), Tail(batch))
+       /\ UNCHANGED ProcRest
 
 \* if _resolve or max_recompute is not None and
 \*    (_last_schedule_update is None or iteration - _last_schedule_update >= max_recompute)
@@ -223,9 +232,17 @@ Obs == [t |-> t,
         nev |-> Len(evHist),
         qlen |-> Cardinality(queue)]
 
+\* The schedules a scheduler may return are numbered; Sched(m) is schedule number m.
+\* (Model checking and generation use the constant Menu; the trace specification
+\* overrides MenuIds/Sched with the schedules the real scheduler returned.)
+MenuIds == DOMAIN Menu
+Sched(m) == Menu[m]
+SLen(m) == Sched(m).len
+Good(m) == Sched(m).kind = "ok"
+
 SchedReturn(m) ==
-    /\ pc = "Sched" /\ m \in DOMAIN Menu
-    /\ Menu[m].kind = "ok" \/ ncrash < MaxCrash      \* a bad schedule ends in Reject
+    /\ pc = "Sched" /\ m \in MenuIds
+    /\ Good(m) \/ ncrash < MaxCrash      \* a bad schedule ends in Reject
     /\ sigma' = m /\ pc' = "Update" /\ resumed' = FALSE
     /\ hist' = Log([a |-> "sched", obs |-> Obs, ret |-> m])
     /\ UNCHANGED <<durable, subs, invLog, snap, ncrash>>
@@ -253,9 +270,6 @@ DumpLoad ==
     /\ UNCHANGED <<pc, durable, sigma, ghost>>
 
 \* _update_schedules(new_schedule)
-Sched(m) == Menu[m]
-SLen(m) == Sched(m).len
-Good(m) == Sched(m).kind = "ok"
 
 Update ==
     /\ pc = "Update" /\ Good(sigma)
@@ -288,10 +302,12 @@ Reject ==
 \* _store_actual_charging_rates(); post_charging_update(); iteration += 1
 AggN(E) == SumSet([s \in Stations |-> E[s] * (VL \div Volt[s])], Stations)
 
-Apply ==
+\* ApplyWith(E): the period is applied and station s delivers energy E[s].  Apply uses the
+\* ideal battery law; the trace specification also admits any E inside the physical
+\* envelope (two-stage batteries, noise) - see Envelope.
+ApplyWith(E) ==
     /\ pc = "Apply"
     /\ LET P == [s \in Stations |-> pilots[s][t + 1]]
-           E == [s \in Stations |-> IF occ[s] = 0 THEN 0 ELSE Charge(occ[s], P[s], s)]
            occd == {occ[s] : s \in Stations} \ {0}
            stOf == [i \in occd |-> CHOOSE s \in Stations : occ[s] = i]
        IN /\ evsePilot' = P
@@ -305,6 +321,14 @@ Apply ==
     /\ t' = t + 1 /\ pc' = "Loop"
     /\ UNCHANGED <<sess, recomp, MR, queue, resolve, lastUpd, batch, occ, pilots, evHist, seen,
                    schedHist, sigma, ghost>>
+
+IdealE == [s \in Stations |-> IF occ[s] = 0 THEN 0 ELSE Charge(occ[s], pilots[s][t + 1], s)]
+
+\* What any battery may physically do in one period (C03): nothing at a vacant station,
+\* and between nothing and the ideal amount at an occupied one.
+Envelope(E) == \A s \in Stations : 0 <= E[s] /\ E[s] <= IdealE[s]
+
+Apply == ApplyWith(IdealE)
 
 \* The behaviour is complete: hand it to the replay harness.
 Finish ==
@@ -324,13 +348,13 @@ Next ==
     \/ \E v \in SessVals : AddSession(v)
     \/ \E R \in RecompSets, mr \in MRSet : Start(R, mr)
     \/ Loop \/ Proc \/ Decide
-    \/ \E m \in DOMAIN Menu : SchedReturn(m)
+    \/ \E m \in MenuIds : SchedReturn(m)
     \/ SchedRaise \/ Resume \/ DumpLoad
     \/ Update \/ Reject \/ Apply \/ Finish \/ Terminated
 
 Spec == Init /\ [][Next]_vars
 FairSpec == Spec /\ WF_vars(Loop) /\ WF_vars(Proc) /\ WF_vars(Decide)
-                 /\ WF_vars(\E m \in DOMAIN Menu : SchedReturn(m))
+                 /\ WF_vars(\E m \in MenuIds : SchedReturn(m))
                  /\ WF_vars(Update) /\ WF_vars(Apply) /\ WF_vars(Resume)
                  /\ WF_vars(Reject) /\ WF_vars(Finish)
                  /\ WF_vars(\E R \in RecompSets, mr \in MRSet : Start(R, mr))
